@@ -62,7 +62,8 @@ def run_ep(ep: str, script: str, args: list[str], cwd: str, ioenc: str = "utf-8"
 
 KINDS = ["root-ok", "deleg-ok", "root-skip", "root-replay", "root-unsigned", "root-foreign", "root-raw-sigs", "deleg-unsigned",
          "deleg-foreign", "unknown-role", "type-mismatch", "malformed-untrusted", "malformed-trusted", "not-json", "missing-untrusted", "missing-trusted",
-         "no-type", "payload-not-md", "root-junk-sig", "deleg-gpg-sigs", "deleg-ok-unicode-role", "nonroot-trusted-vs-root-offer", "root-ok-bom", "root-ok-dup-members"]
+         "no-type", "payload-not-md", "root-junk-sig", "deleg-gpg-sigs", "deleg-ok-unicode-role", "nonroot-trusted-vs-root-offer", "root-ok-bom", "root-ok-dup-members",
+         "typeless-signed-for-role", "empty-type-signed-for-role", "typeless-signed-as-root"]
 
 
 def verify_pairs(rng, n):
@@ -124,6 +125,14 @@ def verify_pairs(rng, n):
             u = gen.sign_env(gen.envelope(gen.root_md(ks, thr, km, 1, version=v + 1)), ks[:thr], True, rng)
         elif kind == "no-type":
             u = rng.choice([{"signatures": {}, "signed": {"x": 1}}, {"signatures": {}}, [1, 2], "str", {"signed": [1]}, {"signatures": {}, "signed": {"type": 5}}])
+        elif kind in ("typeless-signed-for-role", "empty-type-signed-for-role"):
+            # content that declares no type (or an empty one), properly signed by the keys of a delegated role and stored under that role's customary
+            # file name: only the *declared* type selects a role, so there is nothing to accept it as
+            body = {"delegations": {}, "note": "no type here"} if kind.startswith("typeless") else {"type": "", "delegations": {}}
+            u = gen.sign_env(gen.envelope(body), km, False)
+        elif kind == "typeless-signed-as-root":
+            u = gen.envelope({k_: v_ for k_, v_ in gen.root_md(ks, thr, km, 1, version=v + 1).items() if k_ != "type"})
+            gen.sign_env(u, ks, True, rng)
         elif kind == "payload-not-md":
             u = gen.sign_env(gen.envelope({"type": "key_mgr", "not": "delegating metadata"}), km, False)
         tb = None if kind == "missing-trusted" else gen.oracle_bytes(t)
@@ -163,7 +172,21 @@ def run(ck: Check) -> None:
     jobs = []
     lines = []
     for i, (kind, tb, ub, t, u) in enumerate(pairs):
-        tf, uf = os.path.join(d, f"t{i}.json"), os.path.join(d, f"u{i}.json")
+        # files named the way channels name them (N.root.json, root.json, key_mgr.json, <role>.json) or neutrally: names never decide anything
+        pd = os.path.join(d, f"pair{i}")
+        os.makedirs(pd, exist_ok=True)
+        tv = t["signed"].get("version", 1) if isinstance(t, dict) and isinstance(t.get("signed"), dict) else 1
+        tname = rng.choice([f"{tv}.root.json", "root.json", f"t{i}.json", "trusted.json"])
+        if kind in ("typeless-signed-for-role", "empty-type-signed-for-role", "deleg-unsigned", "deleg-foreign", "unknown-role", "type-mismatch", "payload-not-md"):
+            uname = rng.choice(["key_mgr.json", "key_mgr.json", "1.key_mgr.json", "pkg_mgr.json"])
+        elif kind == "typeless-signed-as-root" or kind.startswith("root-"):
+            uname = rng.choice([f"{tv + 1}.root.json", "root.json", f"u{i}.json"]) if kind != "root-ok-bom" else f"u{i}.json"
+        else:
+            uname = rng.choice([f"u{i}.json", "key_mgr.json", "untrusted.json"])
+        if uname == tname:
+            uname = "new." + uname
+        ck.count("verify-file-name:" + ("role-like" if not uname.startswith(("u", "new.u")) else "neutral"))
+        tf, uf = os.path.join(pd, tname), os.path.join(pd, uname)
         for fn, b in ((tf, tb), (uf, ub)):
             if b is not None:
                 with open(fn, "wb") as f:
@@ -177,7 +200,7 @@ def run(ck: Check) -> None:
                 jobs.append((i, ep, ["verify-metadata", tf, uf], "ascii"))      # the same run on a stdout that cannot encode the role name
     # argument-count errors
     for ep in ENTRY_POINTS:
-        jobs.append((-1, ep, ["verify-metadata", os.path.join(d, "t0.json")], "utf-8"))
+        jobs.append((-1, ep, ["verify-metadata", os.path.join(d, "pair0", "no-second-file.json")], "utf-8"))
         jobs.append((-2, ep, [], "utf-8"))
         jobs.append((-3, ep, ["no-such-subcommand"], "utf-8"))
     model = ck.driver.run(lines, list(range(len(lines))))
